@@ -262,7 +262,12 @@ func (r SendErrReason) String() string {
 // Returns:
 //   - true if the error is temporary, false otherwise.
 func isTempError(err error) bool {
-	return err.Error()[0] == '4'
+	rootErr := errors.Unwrap(err)
+	if rootErr != nil {
+		err = rootErr
+	}
+	msg := err.Error()
+	return len(msg) > 0 && msg[0] == '4'
 }
 
 func errorCode(err error) int {
